@@ -379,9 +379,14 @@ def run(ctx):
                        "Popen and time.sleep are rebound inside pysmt.smtlib.solver; streams are in-memory",
                        "blank bytes (the newline after a reply) are not counted as an unattributed reply"]
     q = ctx.quick
-    st1 = bfs(ctx, "main", _run_main, EVENTS_Q if q else EVENTS_T, max_depth=5 if q else 6)
-    st2 = bfs(ctx, "sorts", _run_sort, EVENTS_SORT, max_depth=5 if q else 7)
-    st3 = bfs(ctx, "decl", _run_decl, EVENTS_DECL, max_depth=4 if q else 6)
+    st1 = bfs(ctx, "main", _run_main, EVENTS_Q, max_depth=5 if q else 6)
+    if not q:
+        # the wider alphabet one level less deep
+        st1b = bfs(ctx, "main-wide", _run_main, EVENTS_T, max_depth=5)
+        for k_ in ("states", "transitions", "traces"):
+            st1[k_] += st1b[k_]
+    st2 = bfs(ctx, "sorts", _run_sort, EVENTS_SORT, max_depth=5 if q else 6)
+    st3 = bfs(ctx, "decl", _run_decl, EVENTS_DECL, max_depth=4 if q else 5)
     for k_ in ("states", "transitions", "traces"):
         st2[k_] += st3[k_]
     run_shortcuts(ctx)
